@@ -360,15 +360,15 @@ func (e *Enc) binop(op token.Token, X, Y ssa.Value, resT types.Type, at ssa.Inst
 	case token.QUO:
 		e.panicIf(fmt.Sprintf("(= %s 0)", b), "integer division by zero", at)
 		if signed {
-			return e.wrap(fmt.Sprintf("(tdiv %s %s)", a, b), resT)
+			return e.wrap(divTerm("tdiv", a, b), resT)
 		}
-		return fmt.Sprintf("(div %s %s)", a, b)
+		return divTerm("div", a, b)
 	case token.REM:
 		e.panicIf(fmt.Sprintf("(= %s 0)", b), "integer division by zero", at)
 		if signed {
-			return fmt.Sprintf("(tmod %s %s)", a, b)
+			return divTerm("tmod", a, b)
 		}
-		return fmt.Sprintf("(mod %s %s)", a, b)
+		return divTerm("mod", a, b)
 	case token.AND, token.OR, token.XOR, token.AND_NOT:
 		if ca, ok := constInt(X); ok {
 			if cb, ok := constInt(Y); ok {
